@@ -65,7 +65,8 @@ theorem c20_shared_invariant {S : Sys} (I : Store → Prop) (h0 : I S.initShared
 /-- **Sum of increments = shared counter** for the counter programs of the correspondence run,
 for every number of resources, increments, inputs (fault injections), configurations and
 interleavings: `cnt` equals its initial value plus, for every resource, what its executed cycles
-added (a cycle that faults before the increment adds nothing). -/
+added (a cycle that faults — before or after the increment — is not written back and adds
+nothing). -/
 theorem c20_counter_sum (n : Nat) (inc : Nat → Int) (input : Nat → Nat → Int) (cfg : Nat → Cfg)
     (c0 p0 : Int) {s : State} (h : Reachable (counterSys n inc input cfg c0 p0) s) :
     (aview (counterSys n inc input cfg c0 p0) s).shared 0 =
@@ -87,7 +88,7 @@ theorem c20_counter_sum (n : Nat) (inc : Nat → Int) (input : Nat → Nat → I
       have hrn' : r < n := hrn
       have hsum' : sumTo (fun q => contrib inc input q (s'.res q).execs) n =
           sumTo (fun q => contrib inc input q (s.res q).execs) n +
-            (if input r (s.res r).execs = 1 then 0 else inc r) := by
+            (if input r (s.res r).execs = 1 ∨ input r (s.res r).execs = 2 then 0 else inc r) := by
         apply sumTo_bump _ _ r _ n hrn'
         · simp only [hres, hex, contrib]
         · intro q hq; simp only [hoth q hq]
@@ -96,9 +97,9 @@ theorem c20_counter_sum (n : Nat) (inc : Nat → Int) (input : Nat → Nat → I
       have hc : c = c0 + sumTo (fun q => contrib inc input q (s.res q).execs) n := by
         simpa using hsum
       by_cases e1 : input r (s.res r).execs = 1
-      · simp [e1, Store.set, hc]
+      · simp [e1, hc, h0, h1, h2]
       · by_cases e2 : input r (s.res r).execs = 2
-        · simp [e2, Store.set, hc]; omega
+        · simp [e2, hc, h0, h1, h2]
         · simp [e1, e2, Store.set, hc]; omega
     · refine ⟨⟨c, p, q, h0, h1, h2⟩, ?_⟩
       have : sumTo (fun q => contrib inc input q ((s.setRes r R').res q).execs) n =
@@ -121,11 +122,13 @@ theorem c20_counter_sum (n : Nat) (inc : Nat → Int) (input : Nat → Nat → I
       simp only [estep_shared, hres]
       exact ⟨⟨c, p, q, h0, h1, h2⟩, hsum⟩
 
-/-- **Paired shared variables stay equal** (`_partial`: under the guard that no cycle faults
-between the two writes, i.e. no input selects fault point 2).  For every interleaving, `pa = pb`
-in the atomic view, in particular whenever no section is in progress. -/
-theorem c20_pair_equal_partial (n : Nat) (inc : Nat → Int) (input : Nat → Nat → Int)
-    (cfg : Nat → Cfg) (c0 p0 : Int) (hguard : ∀ r k, input r k ≠ 2) {s : State}
+/-- **Paired shared variables stay equal**, unconditionally: for every number of resources,
+increments, inputs (fault injections at either fault point), configurations and interleavings,
+`pa = pb` in the atomic view of every reachable state, in particular whenever no section is in
+progress.  (A cycle that faults between the two writes is not written back: the closure runs
+`sync_from_locked` only `if result.is_ok()`.) -/
+theorem c20_pair_equal (n : Nat) (inc : Nat → Int) (input : Nat → Nat → Int)
+    (cfg : Nat → Cfg) (c0 p0 : Int) {s : State}
     (h : Reachable (counterSys n inc input cfg c0 p0) s) :
     (aview (counterSys n inc input cfg c0 p0) s).shared 1 =
       (aview (counterSys n inc input cfg c0 p0) s).shared 2 := by
@@ -138,18 +141,15 @@ theorem c20_pair_equal_partial (n : Nat) (inc : Nat → Int) (input : Nat → Na
   · intro r R sh ⟨c, p, h0, h1, h2⟩
     obtain ⟨_, hcr⟩ := counter_crit n inc input cfg c0 p0 r R sh c p p h0 h1 h2
     rw [hcr]
-    by_cases e1 : input r R.execs = 1
-    · exact ⟨c, p, by simp [e1, Store.set]⟩
-    · exact ⟨c + inc r, p + 1, by simp [e1, hguard r R.execs, Store.set]⟩
+    by_cases e : input r R.execs = 1 ∨ input r R.execs = 2
+    · exact ⟨c, p, by simp [e, h0, h1, h2]⟩
+    · exact ⟨c + inc r, p + 1, by simp [e, Store.set]⟩
 
-/-- The guard of `c20_pair_equal_partial` is needed: the code writes the shared names back even
-when `execute_cycle` returned an error (`sync_from_locked(..)?; result`), so a cycle that faults
-between the two writes publishes `pa = 1`, `pb = 0` to every other resource.  One resource, one
-cycle, fault point 2. -/
-theorem c20_counterexample_faulting_cycle_publishes_partial_update :
-    ∃ s, Reachable (counterSys 1 (fun _ => 1) (fun _ _ => 2) (fun _ => {}) 0 0) s ∧
-      s.lock = none ∧ (s.res 0).pc = .done .faulted ∧
-      s.shared 1 = some 1 ∧ s.shared 2 = some 0 := by
+/-- A faulting cycle publishes nothing: one resource, one cycle, fault point 2 (between the two
+writes) — the thread ends `Faulted` and the shared map is the initial one. -/
+example : ∃ s, Reachable (counterSys 1 (fun _ => 1) (fun _ _ => 2) (fun _ => {}) 0 0) s ∧
+    s.lock = none ∧ (s.res 0).pc = .done .faulted ∧
+    s.shared 0 = some 0 ∧ s.shared 1 = some 0 ∧ s.shared 2 = some 0 := by
   refine ⟨_, ⟨[.res 0, .res 0, .res 0, .res 0, .res 0, .res 0, .res 0, .res 0, .res 0], rfl⟩, ?_⟩
   decide
 
